@@ -4,6 +4,7 @@
 import Lean.Data.Json
 import AY.Model.Construct
 import AY.Model.Eval
+import AY.Spec.Plain
 open Lean
 
 namespace AY.Codec
@@ -270,5 +271,10 @@ partial def valJ : Val → Json
   | .sym nm => Json.mkObj [("sym", .str nm)]
   | .pathv s => Json.mkObj [("path", .str s)]
   | .strs l => Json.mkObj [("l", .arr (l.map Json.str).toArray), ("o", .null)]
+
+partial def plainJ : Plain → Json
+  | .scalar s => scalarJ s
+  | .list xs => Json.mkObj [("l", .arr (xs.map plainJ).toArray)]
+  | .dict xs => Json.mkObj [("d", .arr (xs.map (fun kv => Json.arr #[keyJ kv.1, plainJ kv.2])).toArray)]
 
 end AY.Codec
